@@ -1,5 +1,6 @@
 # sentences added to the manifest texts for the rules of the short round 12 (see DESIGN.md section 4 for each rule's statement)
 ROUND12 = {
+ "C06": "Round 12: the --tmux relay terminates the records of Options.Input with the delimiter the real fzf reads (C06-R18).",
  "C07": "Round 12: the ordered selection is rebuilt from the map on every call (C07-R15); the printed text is stripped iff --ansi, with or without colours (C11-R26).",
  "C09": "Round 12: History.current decides by the presence of an edit, not by its text (C09-R28).",
  "C11": "Round 12: the stripAnsi argument of everything printed by Terminal.output is Terminal.ansi itself (C11-R28).",
